@@ -648,14 +648,24 @@ def _bis_below(w, n):
         return list(o.byte_intervals)
     if kind == "Module":
         return [bi for s in o.sections for bi in s.byte_intervals]
-    return [bi for m in o.modules for s in m.sections for bi in s.byte_intervals]
+    return [bi for m in _once(o.modules) for s in m.sections for bi in s.byte_intervals]
+
+
+def _once(objs):
+    """each object once, whatever the collection says (a module listed twice is still ONE member: 'each once' is judged against this)"""
+    seen, out = set(), []
+    for x in objs:
+        if id(x) not in seen:
+            seen.add(id(x))
+            out.append(x)
+    return out
 
 
 def _secs_below(w, n):
     o, kind = w.obj[n], w.kind[n]
     if kind == "Module":
         return list(o.sections)
-    return [s for m in o.modules for s in m.sections]
+    return [s for m in _once(o.modules) for s in m.sections]
 
 
 def scan_extent(sec):
